@@ -89,16 +89,35 @@ def snapshot(stack):
 
 
 def read_view(stack, userdata):
-    """what a fresh reader reports: {flavor: sorted [(name, version, dir, tags...)]}; raises if the reader does"""
-    view = {}
+    """what a fresh reader reports: {flavor: sorted [(name, version, flavor, dir, tags)], "_tags": every tag
+    assignment}; raises if the reader does.  Two readers: an Eups instance per flavor (it rebuilds its cache from the
+    records when that is stale, and raises on a record it cannot parse), and the records read directly through
+    Database.findProducts / getTagAssignments as in the C06 check -- an Eups(readCache=False) loads no product stack
+    at all, its findProducts() is always empty"""
+    import eups
+    view = {fl: [] for fl in FLAVORS}
     for fl in FLAVORS:
         e = new_eups(stack, userdata, fl)
         e2 = type(e)(quiet=1, readCache=False)
-        rows = []
-        for p in e2.findProducts():
-            rows.append([p.name, p.version, p.flavor, os.path.relpath(p.dir, stack) if p.dir else None,
-                         sorted(str(t) for t in p.tags)])
-        view[fl] = sorted(rows)
+        e2.findProducts()
+    sys.modules["eups.db.Database"]._databases.clear()
+    dbp = os.path.join(stack, "ups_db")
+    db = eups.db.Database(dbp)
+    alltags = []
+    for n in sorted(os.listdir(dbp)):
+        if not os.path.isdir(os.path.join(dbp, n)) or n == "_caches_":
+            continue
+        tagsof = {}
+        for (tag, vers, flavor) in db.getTagAssignments(n):
+            tagsof.setdefault((vers, flavor), []).append(str(tag))
+            alltags.append([n, str(tag), flavor, vers])
+        for p in db.findProducts(n):
+            view.setdefault(p.flavor, []).append(
+                [p.name, p.version, p.flavor, os.path.relpath(p.dir, stack) if p.dir else None,
+                 sorted(tagsof.get((p.version, p.flavor), []))])
+    for fl in view:
+        view[fl].sort()
+    view["_tags"] = sorted(alltags)
     return view
 
 
@@ -296,6 +315,18 @@ def case_run(history, op, flush=True):
         shutil.rmtree(work, ignore_errors=True)
 
 
+def case_full_only(history, op):
+    """child: the operation run to completion only, with its trace (no crash points); for the effect-sequence tie"""
+    common.import_eups()
+    work = common.scratch_dir("c08s.")
+    try:
+        stack, userdata = run_history(work, history)
+        info = _killed_run(stack, userdata, op, None, True)
+        return {"full": {"info": info, "after": snapshot(stack)}}
+    finally:
+        shutil.rmtree(work, ignore_errors=True)
+
+
 # ------------------------------------------------------------------ generators
 
 def gen_op(rng):
@@ -431,6 +462,43 @@ def parse_effects(out):
     return "ok", [tuple(common.dec(x) for x in e.split(":", 1)) for e in body.split(";")] if body else []
 
 
+def main_effect_indices(trace):
+    """positions in the trace of the record-level effects of the repaired protocol, in order (os.makedirs and the
+    os.mkdir it calls are both traced: the directory appears with the second entry)"""
+    idx = []
+    for i, (kind, rel, _) in enumerate(trace):
+        if kind == "rename" or kind == "rmdir" or (kind == "unlink" and not is_tmpname(rel)):
+            idx.append(i)
+        elif kind == "mkdir":
+            if i + 1 < len(trace) and trace[i + 1][0] == "mkdir" and trace[i + 1][1] == rel:
+                continue
+            idx.append(i)
+    return idx
+
+
+def real_rows(view):
+    rows = set()
+    for fl in view:
+        if fl == "_tags":
+            continue
+        for name, version, flavor, d, tags in view[fl]:
+            rows.add((name, version, flavor, d or "", "+".join(sorted(tags))))
+    return [sorted(rows), sorted(tuple(t) for t in view.get("_tags", []))]
+
+
+def model_rows(out):
+    if not out.startswith("ok#"):
+        return out
+    body, tagpart = out[3:].split("#")
+    rows = set()
+    for r in filter(None, body.split(";")):
+        n, v, fl, d, tags = r.split(",")
+        rows.add((common.dec(n), common.dec(v), common.dec(fl), common.dec(d).lstrip("/"),
+                  "+".join(sorted(common.dec(t) for t in tags.split("+") if t))))
+    tags = sorted(tuple(common.dec(x) for x in t.split(",")) for t in filter(None, tagpart.split(";")))
+    return [sorted(rows), tags]
+
+
 def compare_effect_sequences(ctx, cases):
     """second layer of the tie: the ordered record-level effects (kind, path) the real operation performed, read off
     the trace of its completed run, against Model/CrashDb.image of Db.effects on the model's image of the prior state
@@ -440,7 +508,12 @@ def compare_effect_sequences(ctx, cases):
         status, model = parse_effects(out)
         trace = c["_full"]["info"]["trace"] or []
         effs, _ = effects_from(trace, c["_full"]["after"])
-        real = [(k, "stack/" + rel) for k, rel in effs]
+        real = []
+        for k, rel in effs:
+            e = (k, "stack/" + rel)
+            if k == "M" and real and real[-1] == e:
+                continue        # os.makedirs and the os.mkdir it calls are both traced: one directory creation
+            real.append(e)
         ctx.traces_validated += 1
         ctx.bump("effect-sequences-compared")
         if [tuple(e) for e in model] != real:
@@ -536,6 +609,7 @@ def explore(ctx, cases, flush=True):
             res.append(("ok", cr))
     compare_effect_sequences(ctx, cases)
     lines, meta = [], []
+    vlines, vmeta = [], []
     for (c, k), r in zip(jobs, res):
         if r[0] != "ok":
             raise RuntimeError("crash run failed: %r" % (r,))
@@ -561,6 +635,13 @@ def explore(ctx, cases, flush=True):
             if kind in ("rename", "mkdir", "rmdir") or (kind == "unlink" and not is_tmpname(rel)):
                 done += 1
         atomic = all(kind != "open" or is_tmpname(rel) for kind, rel, _ in trace)
+        if atomic and r["view"] is not None:
+            # what the fresh reader reports at this crash point against Model/CrashDb.read_db on the model's store
+            # after the same number of completed record-level effects
+            j = sum(1 for i in main_effect_indices(trace) if i < k)
+            vlines.append("\t".join(["crashview", "0", "stack", "|".join(op_model(o) for o in c["history"]),
+                                     op_model(c["op"]), str(j)]))
+            vmeta.append((c, k, r))
         if atomic and all(v == 1 for v in writes.values()):
             # position in the model's system calls: all calls of the completed effects
             pos = 0
@@ -570,6 +651,15 @@ def explore(ctx, cases, flush=True):
             meta.append((c, k, r))
         else:
             ctx.bump("not-compared-with-model(in-place or repeated write)")
+    if vlines:
+        outs = ctx.model(vlines)
+        for out, (c, k, r) in zip(outs, vmeta):
+            ctx.bump("crash-views-compared")
+            m, real = model_rows(out), real_rows(r["view"])
+            if m != real:
+                ctx.disagree({"history": c["history"], "op": c["op"], "kill_before_effect": k}, repr(m)[:600],
+                             repr(real)[:600], where="what a fresh reader reports at the crash point (read_db of the "
+                                                     "model's crash store vs findProducts of the real one)")
     if lines:
         outs = ctx.model(lines)
         for line, out, (c, k, r) in zip(lines, outs, meta):
@@ -584,11 +674,17 @@ def run(ctx):
     ctx.rule = ("random histories of 2-6 mutating operations (declare with/without tag, tag, untag, undeclare) over 2 "
                 "products x 2 versions x 2 flavors sharing version files; the last operation is killed before every "
                 "one of its file-system effects (open/write/close/rename/unlink/mkdir/rmdir under ups_db); a case is "
-                "non-trivial when the completed operation changes the database; distinct = distinct (history, op, k)")
+                "non-trivial when the completed operation changes the database; distinct = distinct (history, op, k); "
+                "plus histories of 2-7 operations whose last operation is only run to completion, for the comparison "
+                "of its ordered record-level effects with the model's")
     ctx.trusted_base = common.COMMON_TRUSTED + [
         "crash = the process stops between two file-system calls (os._exit in an injected wrapper); rename, unlink, "
         "mkdir, rmdir are atomic; no power loss (fsync) semantics",
-        "the record-level effect list fed to the model is reconstructed from the trace of the completed real run"]
+        "the record-level effect list fed to the generic crash model is reconstructed from the trace of the completed "
+        "real run; its kinds and paths, in order, are compared with Model/CrashDb.image of Db.effects for the same "
+        "operation on the model state reached by the same history (record contents are not compared: abstract)",
+        "Eups.declare without a directory finds <stack>/<flavor>/<product>/<version> by itself (not modelled in Db.v); "
+        "the harness encodes such operations with that directory given"]
     ctx.assumptions = ["POSIX atomicity of rename/unlink/mkdir/rmdir", "one writer at a time (C09 provides it)"]
     ctx.check_theorems()
     cases = corpus_cases() + directed_cases()
@@ -599,6 +695,20 @@ def run(ctx):
     for c in cases[:3]:
         ctx.sample({"history": c["history"], "op": c["op"]})
     explore(ctx, cases, flush=True)
+    # many more operations for the effect-sequence tie alone (completed runs, no crash points: cheap)
+    seq = []
+    for _ in range(ctx.size(150, 2500)):
+        h = gen_history(ctx.rng) + ([gen_op(ctx.rng)] if ctx.rng.random() < 0.5 else [])
+        seq.append({"history": h[:-1], "op": h[-1]})
+    runs = common.par_map(case_full_only, [(c["history"], c["op"]) for c in seq], timeout=300)
+    for c, r in zip(seq, runs):
+        if r[0] != "ok":
+            raise RuntimeError("case run failed: %r" % (r,))
+        c["_full"] = r[1]["full"]
+        ctx.count(1, key="sequence-only/%s/effects=%d" % (c["op"]["op"], min(len(c["_full"]["info"]["trace"] or []), 9)),
+                  nontrivial=(json.dumps([c["history"], c["op"]], sort_keys=True)
+                              if c["_full"]["info"]["trace"] else None))
+    compare_effect_sequences(ctx, seq)
     # the same crash points with python's ordinary buffering: what was written but not yet closed is lost
     nb = len(corpus_cases()) + len(directed_cases()) + ctx.size(6, 100)
     explore(ctx, [dict(history=c["history"], op=c["op"], _oldview=c.get("_oldview")) for c in cases[:nb]], flush=False)
